@@ -119,7 +119,8 @@ def jobs(tier, seed):
     # runtime-feature cell: the dispatcher under EVERY interleaving of first calls (cell = any reachable value before each atomic
     # operation, reachable set computed as a fixpoint over the dispatch code), on all four CPU kinds
     NOTAB = [b for b in range(256) if b != 9]
-    for fn, cls in (('runtime::match_uri_vectored', 'uri'), ('runtime::match_header_value_vectored', 'value'), ('runtime::match_header_name_vectored', 'name')):
+    from . import c12 as _c12
+    for fn, cls in _c12.dispatchers('x86-rt'):
         for L in (0, 1, 8, 16, 17, 33, 40):
             params = {'variants': ['x86-rt'], 'fn': fn, 'cls': cls, 'L': L, 'tag': 'runtime', 'fixed': ({i: NOTAB for i in range(L)} if cls == 'value' else None), 'prop': P, 'xcheck_every': 0}
             jb = Job(f'cell-{fn.split("::")[-1]}-L{L}', 'mirse.props.c12.leaf_scan', params, bud, f'{fn}: CPU features symbolic, cache cell = any reachable value at every atomic operation, {L}-byte symbolic buffer: '
